@@ -23,7 +23,7 @@ CLAIMS = {
              "'checked normalize forms never return a non-finite vector' are not decided.",
         technique="call-site contracts (tree_in, control, structure) on the real functions, Kani/CBMC + cvc5, exact-lattice identities", ref="5 C02, 9.2"),
     "C03": dict(
-        text="mul_vec as tree_in over the full domain; woven lane contracts on add/sub/scalar ops and negation; operator forms and the column structure of A*B proved by forwarding lemmas "
+        text="mul_vec as tree_in over the full domain; add/sub/scalar ops/negation act column by column as the (C01-contracted) vector operators; operator forms and the column structure of A*B proved by forwarding lemmas "
              "with the named methods uninterpreted; exact-lattice identities for M*v, A*B, (A*B)*v, determinant (Laplace expansion) and inverse*det == adjugate.",
         note=TB + "A3/A4: off-lattice accuracy and the polynomial-on-a-grid uniqueness argument are assumptions; inverse exact only where 1/det is exact; 4x4 and f64 lattice obligations in the thorough tier.",
         technique="Kani function contracts + forwarding lemmas (uninterpreted callees) + exact-lattice polynomial identities (CBMC SAT)", ref="5 C03"),
@@ -49,7 +49,7 @@ CLAIMS = {
     "C08": dict(
         text="Two-run non-interference obligations (bit-identical visible lanes, independently symbolic hidden lanes, transcendentals uninterpreted) for every public method of Vec3A/Mat3A/Affine3A found in the source, "
              "their operators and conversions out, and all BVec3A observers; every other property's obligations over these types run with a symbolic hidden lane.",
-        note=TB + "Debug/Display not decided; the lane does not exist under scalar-math; core-simd not compiled.",
+        note=TB + "Two-run obligations run with ALL primitive arithmetic uninterpreted; methods with large bodies (inverse, mul_mat3, clamp_length, slerp, any_orthonormal_*, ...) are not decided within the timeout / table capacity and are excluded (listed per run under excluded_undecided / deferred_to_thorough). Debug/Display not decided; the lane does not exist under scalar-math; core-simd not compiled.",
         technique="two-run non-interference contracts over symbolic hidden lanes (Kani/CBMC SAT)", ref="5 C08"),
     "C09": dict(
         text="Single-axis rotation constructors equal the textbook matrices / half-angle quaternions for every angle bit pattern with sin_cos uninterpreted; Rodrigues polynomial exact on the lattice; "
@@ -67,7 +67,7 @@ CLAIMS = {
         note=TB + "A5: uninterpreted tan/sin_cos/sqrt with power-of-two values; quaternion look_to forms only through C05; numerical accuracy for arbitrary parameters assumed (A3).",
         technique="exact plane-mapping lemmas with uninterpreted transcendentals", ref="5 C11"),
     "C12": dict(
-        text="lerp endpoints (value-exact for finite operands), move_towards and clamp_length* control predicates and structure, exact orthogonality of any_orthogonal_vector, FloatExt forms, "
+        text="lerp endpoints (value-exact for finite operands), move_towards and clamp_length* control predicates and structure (modular in length / length_squared), any_orthogonal_vector form (full domain) and exact orthogonality (lattice), FloatExt forms, "
              "from_rotation_arc(_colinear/_2d) threshold branches and the slerp fallback/sign-flip branch.",
         note=TB + "slerp angle proportionality, never-overshoot, rotate_towards semantics, orthonormality of any_orthonormal_* and from_rotation_arc(a,b)*a == b are NOT decided (real trigonometry).",
         technique="control and structure contracts at the call site, uninterpreted sqrt/sin/acos (Kani/CBMC + cvc5)", ref="5 C12"),
@@ -97,24 +97,24 @@ CLAIMS = {
     "C18": dict(
         text="Every public float function found in the source called with fully symbolic arguments (transcendentals unconstrained): no failed panic/bounds/pointer check; slice functions for every length "
              "(short => never returns, otherwise exactly the first N elements and frame); index panics; bounded native check that nothing is written before a short-slice panic.",
-        note=TB + "Kani/CBMC memory model replaces the ASan clause; the no-write-before-panic clause is a bounded native stand-in (labelled bounded); release profile not covered.",
+        note=TB + "Two defects found and fixed in /repo (rotate_towards NaN clamp panic; write_cols_to_slice partial write). Kani/CBMC memory model replaces the ASan clause; the no-write-before-panic clause is a bounded native stand-in (labelled bounded); release profile not covered.",
         technique="totality contracts (no reachable panic / invalid access) + always-panics contracts; bounded native stand-in for post-panic state", ref="5 C18, 9.1"),
     "C19": dict(
         text="serde through an exact no-alloc recording Serializer/Deserializer (tuple struct of N elements in order, bit-exact round trip, shorter sequences rejected) in the sse2 and scalar builds; "
              "bytemuck byte image / zeroed / cast round trip and Pod-only-for-unpadded probes; mint round trips and row/column-major layout.",
-        note=TB + "serde_json text, rkyv, rand, approx and rejection of longer sequences are not decided; representative subset of the 54 value types (all shapes, all SIMD-backed types, masks).",
+        note=TB + "One defect found and fixed in /repo (BVec4A Serialize). serde_json text, rkyv, rand, approx and rejection of longer sequences are not decided; representative subset of the 54 value types (all shapes, all SIMD-backed types, masks).",
         technique="contracts over an in-harness token stream / byte image (Kani/CBMC SAT)", ref="5 C19"),
     "C20": dict(
-        text="glam-assert builds (sse2 and scalar): always-panics obligations for one representative of every kind of assertion site; frame scan of the assertion macro + re-discharged lattice value obligations "
+        text="glam-assert builds (sse2 and scalar): one always-panics obligation per DOCUMENTED panic condition (# Panics doc paragraphs scanned from the source: not normalized, min > max, negative bound, zero scale, zero determinant, non-positive plane) plus hand-written representatives for the rest; frame scan of the assertion macro + re-discharged lattice value obligations "
              "(assertions never change a value); exact producers (constants, lattice unit quaternion products, TRS matrices) satisfy the asserted preconditions.",
-        note=TB + "A7: macro frame scan is syntactic; chains of operations staying within the 2e-4 tolerance and normalize/slerp outputs are NOT decided.",
+        note=TB + "A7: macro frame scan is syntactic; chains of operations staying within the 2e-4 tolerance and normalize/slerp outputs are NOT decided. Known finding (known_findings.txt): Quat/DQuat::mul_quat document a panic for non-normalized operands but contain no assertion.",
         technique="always-panics contracts + syntactic frame condition + exact-lattice lemmas in the assert build", ref="5 C20"),
 }
 
 ALL = ["C%02d" % i for i in range(1, 21)]
 # properties whose check is not yet reliable on the unchanged tree: reason
 PENDING = 'check built; not yet validated end-to-end on the unchanged tree in this round (will be claimed once its quick command is stable)'
-UNCLAIMED = {p: PENDING for p in ['C02','C03','C04','C05','C07','C08','C09','C10','C11','C12','C13','C18','C19','C20']}
+UNCLAIMED = {}
 NOT_YET = "not claimed yet: machinery for this property is still being built in this round (see DESIGN.md section 5 for the plan)"
 
 
